@@ -1,5 +1,6 @@
 (* Proofs about CTModel.  Statements are fixed by Properties_C19.v. *)
 From Coq Require Import ZArith List Bool Arith Lia.
+Require Import Verif.Conc.Machine.
 Require Import Verif.Gen.Gen_counter Verif.CT.CTModel.
 Import ListNotations.
 
@@ -252,19 +253,19 @@ Proof.
   destruct (local_fast_hit _ _) eqn:Eh.
   - intros H; inversion H; subst; clear H. apply g_hit, Nat2Z.inj in Eh.
     destruct (i_cache _ I _ _ Eh) as (A & B & C). destruct (i_tid _ I _ _ B) as (D & _ & _).
-    Show. unfold same_but_threads. rewrite <- H2 in *. cbn in *. subst s'. repeat split; auto. intros k0 E. congruence.
+    unfold same_but_threads. rewrite H2 in *. cbn in *. subst s'. split; [exact I|]. repeat split; auto; try (intros; congruence).
   - destruct (t_tid (thr x t)) as [k0|] eqn:Et.
-    + intros H; inversion H; subst; clear H. fold (miss_state x t s k (tids x)).
-      destruct (i_tid _ I _ _ Et) as (A & B & C).
+    + intros H; injection H as Hx Hs Hk; subst x' s' k. fold (miss_state x t s k0 (tids x)).
+      destruct (i_tid _ I _ _ Et) as (A & B & C). set (k := k0) in *.
       split; [apply miss_inv; auto|].
       * apply (i_fre_nd _ I).
       * intros u k1 Hu E F. subst k1. apply Hu. eapply (i_tid_inj _ I); eauto.
       * unfold miss_state, same_but_threads; cbn. unfold upd. rewrite !Nat.eqb_refl. cbn.
         repeat split; auto; try (apply (ensure_gt (cB cf) (csize x s) k HB)).
         -- intros u Hu. destruct (Nat.eqb_spec u t); [contradiction|reflexivity].
-        -- intros k0 E. congruence.
-    + destruct (id_alloc (tids x)) as [k0 a'] eqn:Ea. intros H; inversion H; subst; clear H.
-      fold (miss_state x t s k a').
+        -- intros k1 E. subst k. congruence.
+    + destruct (id_alloc (tids x)) as [k0 a'] eqn:Ea. intros H; injection H as Hx Hs Hk; subst x' s' k.
+      fold (miss_state x t s k0 a'). set (k := k0) in *.
       destruct (alloc_spec _ _ _ (i_fre _ I) (i_fre_nd _ I) Ea) as (A1 & A2 & A3 & A4 & A5 & A6 & A7).
       split; [apply miss_inv; auto|].
       * intros u k1 Hu E F. subst k1. destruct (i_tid _ I _ _ E) as (B1 & B2 & B3).
@@ -273,7 +274,645 @@ Proof.
       * unfold miss_state, same_but_threads; cbn. unfold upd. rewrite !Nat.eqb_refl. cbn.
         repeat split; auto; try (apply (ensure_gt (cB cf) (csize x s) k HB)).
         -- intros u Hu. destruct (Nat.eqb_spec u t); [contradiction|reflexivity].
-        -- intros k0 E. congruence.
+        -- intros k1 E. subst k. congruence.
+Qed.
+
+Definition small (x : st) : Prop := (Z.of_nat (nxt (tids x)) + Z.of_nat (cB cf) <= 2 ^ 16)%Z.
+
+Lemma each_bound_eq : forall x s, inv x -> small x -> each_bound x s = Nat.min (nxt (tids x)) (csize x s).
+Proof.
+  intros x s I Hs. unfold each_bound. pose proof (i_size _ I s). unfold small in Hs.
+  rewrite g_size_arg by lia. lia.
+Qed.
+
+Lemma inv_spawn : forall x t, inv x -> t_alive (thr x t) = false ->
+  inv (set_thr x (upd (thr x) t {| t_alive := true; t_tid := None; t_cid := Z.to_nat cache_init_id; t_item := (0, 0) |})).
+Proof.
+  intros x t I Hd. constructor; cbn.
+  - exact (i_fre _ I).
+  - exact (i_fre_nd _ I).
+  - intros u k. unfold upd. destruct (Nat.eqb_spec u t); cbn; [discriminate|apply (i_tid _ I)].
+  - intros u v k. unfold upd. destruct (Nat.eqb_spec u t); destruct (Nat.eqb_spec v t); cbn; try discriminate.
+    apply (i_tid_inj _ I).
+  - intros u s. unfold upd. destruct (Nat.eqb_spec u t); cbn; [|apply (i_cache _ I)].
+    intros E. exfalso. eapply sto_id_not_init; eauto.
+  - exact (i_mem _ I).
+  - exact (i_size _ I).
+  - exact (i_inst _ I).
+  - exact (i_inst_inj _ I).
+  - exact (i_ifre _ I).
+  - exact (i_ifre_nd _ I).
+  - exact (i_freez _ I).
+  - exact (i_sum _ I).
+  - exact (i_used _ I).
+Qed.
+
+Lemma inv_exit : forall x t, inv x -> t_alive (thr x t) = true ->
+  inv (let x1 := match t_tid (thr x t) with Some k => set_tids x (id_free (tids x) k) | None => x end in
+       set_thr x1 (upd (thr x1) t thread0)).
+Proof.
+  intros x t I Hal.
+  assert (Hthr : forall x1 u, thr x1 = thr x -> u <> t -> upd (thr x1) t thread0 u = thr x u).
+  { intros x1 u E Hu. unfold upd. destruct (Nat.eqb_spec u t); [contradiction|rewrite E; reflexivity]. }
+  destruct (t_tid (thr x t)) as [k|] eqn:Et; cbn.
+  - destruct (i_tid _ I _ _ Et) as (A & B & C).
+    constructor; cbn.
+    + intros j [<-|Hj]; [exact A|apply (i_fre _ I), Hj].
+    + constructor; [exact B|apply (i_fre_nd _ I)].
+    + intros u j. unfold upd. destruct (Nat.eqb_spec u t); cbn; [discriminate|].
+      intros E. destruct (i_tid _ I _ _ E) as (A' & B' & C'). repeat split; auto.
+      intros [F|F]; [|contradiction]. subst j. apply n. eapply (i_tid_inj _ I); eauto.
+    + intros u v j. unfold upd. destruct (Nat.eqb_spec u t); destruct (Nat.eqb_spec v t); cbn; try discriminate.
+      apply (i_tid_inj _ I).
+    + intros u s. unfold upd. destruct (Nat.eqb_spec u t); cbn; [|apply (i_cache _ I)].
+      intros E. exfalso. eapply sto_id_not_init; eauto.
+    + exact (i_mem _ I).
+    + exact (i_size _ I).
+    + exact (i_inst _ I).
+    + exact (i_inst_inj _ I).
+    + exact (i_ifre _ I).
+    + exact (i_ifre_nd _ I).
+    + exact (i_freez _ I).
+    + exact (i_sum _ I).
+    + exact (i_used _ I).
+  - constructor; cbn.
+    + exact (i_fre _ I).
+    + exact (i_fre_nd _ I).
+    + intros u j. unfold upd. destruct (Nat.eqb_spec u t); cbn; [discriminate|apply (i_tid _ I)].
+    + intros u v j. unfold upd. destruct (Nat.eqb_spec u t); destruct (Nat.eqb_spec v t); cbn; try discriminate.
+      apply (i_tid_inj _ I).
+    + intros u s. unfold upd. destruct (Nat.eqb_spec u t); cbn; [|apply (i_cache _ I)].
+      intros E. exfalso. eapply sto_id_not_init; eauto.
+    + exact (i_mem _ I).
+    + exact (i_size _ I).
+    + exact (i_inst _ I).
+    + exact (i_inst_inj _ I).
+    + exact (i_ifre _ I).
+    + exact (i_ifre_nd _ I).
+    + exact (i_freez _ I).
+    + exact (i_sum _ I).
+    + exact (i_used _ I).
+Qed.
+
+Ltac same I := first [exact (i_fre _ I) | exact (i_fre_nd _ I) | exact (i_tid _ I) | exact (i_tid_inj _ I)
+  | exact (i_cache _ I) | exact (i_mem _ I) | exact (i_size _ I) | exact (i_inst _ I) | exact (i_inst_inj _ I)
+  | exact (i_ifre _ I) | exact (i_ifre_nd _ I) | exact (i_freez _ I) | exact (i_sum _ I) | exact (i_used _ I)].
+
+Lemma inv_new : forall x c, inv x -> chnd x c = None -> inv (fst (new_inst cf x c)).
+Proof.
+  intros x c I Hc. unfold new_inst. destruct (id_alloc (iids x)) as [iid a'] eqn:Ea. cbn.
+  destruct (alloc_spec _ _ _ (i_ifre _ I) (i_ifre_nd _ I) Ea) as (A1 & A2 & A3 & A4 & A5 & A6 & A7).
+  assert (Hfresh : In iid (fre (iids x)) \/ (nxt (iids x) <= iid)%nat) by (destruct A7 as [[? _]|[? _]]; [left; auto|right; lia]).
+  constructor; cbn; try (same I).
+  - intros d j. unfold upd. destruct (Nat.eqb_spec d c).
+    + intros E; inversion E; subst; cbn. repeat split; auto.
+    + intros E. destruct (i_inst _ I _ _ E) as (B1 & B2 & B3 & B4). repeat split; auto. lia.
+  - intros d e i j. unfold upd. destruct (Nat.eqb_spec d c); destruct (Nat.eqb_spec e c); try congruence.
+    + intros E1 E2 E3. inversion E1; subst; cbn in *. destruct (i_inst _ I _ _ E2) as (B1 & B2 & _).
+      exfalso. destruct Hfresh as [F|F]; [rewrite E3 in F; contradiction|lia].
+    + intros E1 E2 E3. inversion E2; subst; cbn in *. destruct (i_inst _ I _ _ E1) as (B1 & B2 & _).
+      exfalso. destruct Hfresh as [F|F]; [rewrite <- E3 in F; contradiction|lia].
+    + apply (i_inst_inj _ I).
+  - intros j Hj. apply A5, (i_ifre _ I) in Hj. lia.
+  - exact A4.
+  - intros j Hj. apply (i_freez _ I). destruct Hj as [Hj|Hj]; [left; auto|right; lia].
+  - intros Hs d j. unfold upd. destruct (Nat.eqb_spec d c).
+    + intros E; inversion E; subst; cbn.
+      split; [|intros _]; apply colsum_zero; intros k _; rewrite (i_freez _ I _ Hfresh), (czero_summing Hs); reflexivity.
+    + apply (i_sum _ I Hs).
+Qed.
+
+Lemma fill_cases : forall m s n o v s' k' o',
+  fill m s n o v s' k' o' = v \/ fill m s n o v s' k' o' = m s' k' o'.
+Proof. intros. unfold fill. destruct (_ && _ && _); auto. Qed.
+
+Lemma fill_other : forall m s n o v s' k' o', (s' <> s \/ o' <> o) -> fill m s n o v s' k' o' = m s' k' o'.
+Proof.
+  intros. unfold fill. destruct (Nat.eqb_spec s' s); destruct (Nat.eqb_spec o' o); cbn; try reflexivity.
+  - destruct H; contradiction.
+  - rewrite andb_false_r. reflexivity.
+Qed.
+
+Lemma fill_col : forall x s o v, inv x -> small x -> v = czero (ck cf) \/ True ->
+  forall k, fill (cmem x) s (each_bound x s) o v s k o = v \/
+            (fill (cmem x) s (each_bound x s) o v s k o = czero (ck cf)).
+Proof.
+  intros x s o v I Hsm _ k. unfold fill. rewrite !Nat.eqb_refl.
+  replace (true && (k <? each_bound x s) && true) with (k <? each_bound x s) by (destruct (k <? each_bound x s); reflexivity).
+  destruct (Nat.ltb_spec k (each_bound x s)); [left; reflexivity|right].
+  apply (i_mem _ I). rewrite each_bound_eq in H by assumption. lia.
+Qed.
+
+Lemma inst_slot_inj : forall x c d i j, inv x -> chnd x c = Some i -> chnd x d = Some j ->
+  i_sto i = i_sto j -> i_off i = i_off j -> c = d.
+Proof.
+  intros x c d i j I Hc Hd Hs Ho.
+  destruct (i_inst _ I _ _ Hc) as (_ & _ & O1 & S1). destruct (i_inst _ I _ _ Hd) as (_ & _ & O2 & S2).
+  eapply (i_inst_inj _ I); eauto. apply slot_inj; congruence.
+Qed.
+
+Lemma inv_del : forall x c i, inv x -> small x -> chnd x c = Some i ->
+  inv (let x1 := set_cmem x (fill (cmem x) (i_sto i) (each_bound x (i_sto i)) (Z.to_nat (dtor_zero_index (Z.of_nat (i_off i)))) (czero (ck cf))) in
+       set_chnd (set_iids x1 (id_free (iids x1) (i_iid i))) (upd (chnd x1) c None)).
+Proof.
+  intros x c i I Hsm Hc. rewrite g_dtor, Nat2Z.id. cbn.
+  destruct (i_inst _ I _ _ Hc) as (B1 & B2 & B3 & B4).
+  constructor; cbn; try (same I).
+  - intros s k o Hk. destruct (fill_cases (cmem x) (i_sto i) (each_bound x (i_sto i)) (i_off i) (czero (ck cf)) s k o) as [->| ->];
+      [reflexivity|apply (i_mem _ I), Hk].
+  - intros d j. unfold upd. destruct (Nat.eqb_spec d c); [discriminate|].
+    intros E. destruct (i_inst _ I _ _ E) as (C1 & C2 & C3 & C4). repeat split; auto.
+    intros [F|F]; [|contradiction]. apply n. eapply (i_inst_inj _ I); eauto.
+  - intros d e j1 j2. unfold upd. destruct (Nat.eqb_spec d c); destruct (Nat.eqb_spec e c); try discriminate.
+    apply (i_inst_inj _ I).
+  - intros j [<-|Hj]; [exact B1|apply (i_ifre _ I), Hj].
+  - constructor; [exact B2|apply (i_ifre_nd _ I)].
+  - intros j Hj k.
+    destruct (Nat.eq_dec j (i_iid i)) as [->|Hne].
+    + rewrite <- B3, <- B4.
+      destruct (fill_col x (i_sto i) (i_off i) (czero (ck cf)) I Hsm (or_intror Logic.I) k) as [->| ->]; reflexivity.
+    + destruct (fill_cases (cmem x) (i_sto i) (each_bound x (i_sto i)) (i_off i) (czero (ck cf)) (sto_of j) k (off_of j)) as [->| ->];
+        [reflexivity|]. apply (i_freez _ I). destruct Hj as [[F|F]|F]; [congruence|left; exact F|right; exact F].
+  - intros Hs d j. unfold upd. destruct (Nat.eqb_spec d c); [discriminate|]. intros E.
+    destruct (i_sum _ I Hs _ _ E) as [S1 S2].
+    assert (Hd : i_sto j <> i_sto i \/ i_off j <> i_off i).
+    { destruct (Nat.eq_dec (i_sto j) (i_sto i)); [|left; assumption].
+      destruct (Nat.eq_dec (i_off j) (i_off i)); [|right; assumption].
+      exfalso. apply n. eapply inst_slot_inj; eauto. }
+    split; [|intros Hk; specialize (S2 Hk)]; (rewrite (colsum_ext _ (cmem x)); [assumption|]);
+      intros k _; apply fill_other; exact Hd.
+Qed.
+
+Definition pi (c d e : nat) : nat := if Nat.eqb e d then c else if Nat.eqb e c then d else e.
+Lemma pi_inj : forall c d e1 e2, pi c d e1 = pi c d e2 -> e1 = e2.
+Proof.
+  intros c d e1 e2. unfold pi.
+  destruct (Nat.eqb_spec e1 d); destruct (Nat.eqb_spec e1 c); destruct (Nat.eqb_spec e2 d); destruct (Nat.eqb_spec e2 c); congruence.
+Qed.
+Lemma upd_pi : forall A (f : nat -> A) c d e, upd (upd f c (f d)) d (f c) e = f (pi c d e).
+Proof.
+  intros A f c d e. unfold upd, pi. destruct (Nat.eqb_spec e d); [reflexivity|]. destruct (Nat.eqb_spec e c); reflexivity.
+Qed.
+
+Lemma inv_swap : forall x c d, inv x -> inv (swap_inst x c d).
+Proof.
+  intros x c d I. unfold swap_inst. constructor; cbn; try (same I).
+  - intros e i. rewrite upd_pi. apply (i_inst _ I).
+  - intros e1 e2 i j. rewrite !upd_pi. intros E1 E2 E3. eapply pi_inj, (i_inst_inj _ I); eauto.
+  - intros Hs e i. rewrite !upd_pi. apply (i_sum _ I Hs).
+Qed.
+
+Lemma upd3_other : forall m s k o v s' k' o', (s' <> s \/ o' <> o \/ k' <> k) -> upd3 m s k o v s' k' o' = m s' k' o'.
+Proof.
+  intros. unfold upd3. destruct (Nat.eqb_spec s' s); destruct (Nat.eqb_spec k' k); destruct (Nat.eqb_spec o' o); cbn; try reflexivity.
+  destruct H as [?|[?|?]]; contradiction.
+Qed.
+
+(* the memory write of an addition on a state whose local() has been taken *)
+Lemma inv_write : forall x c i k v, inv x -> chnd x c = Some i -> (k < nxt (tids x))%nat -> (k < csize x (i_sto i))%nat ->
+  inv (let old := cmem x (i_sto i) k (i_off i) in
+       let x2 := set_cmem x (upd3 (cmem x) (i_sto i) k (i_off i) (cell_add (ck cf) (cver x c) v old)) in
+       set_ghost x2 (upd (g_sum x2) c (g_sum x2 c + v)%Z) (upd (g_cnt x2) c (g_cnt x2 c + 1)%Z) (upd (g_per x2) c (v :: g_per x2 c))).
+Proof.
+  intros x c i k v I Hc Hk1 Hk2. cbn.
+  destruct (i_inst _ I _ _ Hc) as (B1 & B2 & B3 & B4).
+  constructor; cbn; try (same I).
+  - intros s k0 o Hk. rewrite upd3_other; [apply (i_mem _ I), Hk|].
+    destruct (Nat.eq_dec s (i_sto i)); [subst s|left; assumption]. right; right. lia.
+  - intros j Hj k0. rewrite upd3_other; [apply (i_freez _ I), Hj|].
+    destruct (Nat.eq_dec (sto_of j) (i_sto i)); [|left; assumption].
+    destruct (Nat.eq_dec (off_of j) (i_off i)); [|right; left; assumption].
+    exfalso. assert (j = i_iid i) by (apply slot_inj; congruence). subst j. destruct Hj; [contradiction|lia].
+  - intros Hs d j. unfold upd. destruct (Nat.eqb_spec d c).
+    + subst d. rewrite Hc. intros E; inversion E; subst j. destruct (i_sum _ I Hs _ _ Hc) as [S1 S2].
+      rewrite !colsum_upd3 by assumption. rewrite S1.
+      destruct Hs as [Hs|Hs]; rewrite Hs in *; cbn; unfold adder_step, summer_unit.
+      * split; [lia|discriminate].
+      * split; [lia|]. intros _. rewrite (S2 eq_refl). lia.
+    + intros E. destruct (i_sum _ I Hs _ _ E) as [S1 S2].
+      assert (Hd : i_sto j <> i_sto i \/ i_off j <> i_off i).
+      { destruct (Nat.eq_dec (i_sto j) (i_sto i)); [|left; assumption].
+        destruct (Nat.eq_dec (i_off j) (i_off i)); [|right; assumption].
+        exfalso. apply n. eapply inst_slot_inj; eauto. }
+      split; [|intros Hk; specialize (S2 Hk)]; (rewrite (colsum_ext _ (cmem x)); [assumption|]);
+        intros k0 _; apply upd3_other; tauto.
+Qed.
+
+Lemma inv_reset_adder : forall x c i, inv x -> small x -> ck cf = KAdder -> chnd x c = Some i ->
+  inv (let x1 := set_cmem x (fill (cmem x) (i_sto i) (each_bound x (i_sto i)) (i_off i) (adder_reset_value, 0%Z)) in
+       set_ghost x1 (upd (g_sum x1) c 0%Z) (upd (g_cnt x1) c 0%Z) (upd (g_per x1) c [])).
+Proof.
+  intros x c i I Hsm Hk Hc. rewrite g_reset_value. cbn.
+  assert (Hz : czero (ck cf) = (0%Z, 0%Z)) by (rewrite Hk; reflexivity).
+  constructor; cbn; try (same I).
+  - intros s k o Hb. destruct (fill_cases (cmem x) (i_sto i) (each_bound x (i_sto i)) (i_off i) (0%Z, 0%Z) s k o) as [->| ->];
+      [symmetry; exact Hz|apply (i_mem _ I), Hb].
+  - intros j Hj k.
+    destruct (fill_cases (cmem x) (i_sto i) (each_bound x (i_sto i)) (i_off i) (0%Z, 0%Z) (sto_of j) k (off_of j)) as [->| ->];
+      [symmetry; exact Hz|apply (i_freez _ I), Hj].
+  - intros Hs d j. unfold upd. destruct (Nat.eqb_spec d c).
+    + subst d. rewrite Hc. intros E; inversion E; subst j.
+      split; [|intros F; congruence]. apply colsum_zero. intros k _.
+      destruct (fill_col x (i_sto i) (i_off i) (0%Z, 0%Z) I Hsm (or_intror Logic.I) k) as [->| ->]; [reflexivity|rewrite Hz; reflexivity].
+    + intros E. destruct (i_sum _ I Hs _ _ E) as [S1 S2].
+      assert (Hd : i_sto j <> i_sto i \/ i_off j <> i_off i).
+      { destruct (Nat.eq_dec (i_sto j) (i_sto i)); [|left; assumption].
+        destruct (Nat.eq_dec (i_off j) (i_off i)); [|right; assumption].
+        exfalso. apply n. eapply inst_slot_inj; eauto. }
+      split; [|intros Hk'; specialize (S2 Hk')]; (rewrite (colsum_ext _ (cmem x)); [assumption|]);
+        intros k _; apply fill_other; exact Hd.
+Qed.
+
+Lemma alloc_mono : forall a, (nxt a <= nxt (snd (id_alloc a)))%nat.
+Proof. intros a. unfold id_alloc. destruct (fre a); cbn; lia. Qed.
+
+Lemma local_mono : forall x t s, (nxt (tids x) <= nxt (tids (fst (local cf x t s))))%nat.
+Proof.
+  intros x t s. unfold local. destruct (local_fast_hit _ _); [cbn; lia|].
+  destruct (t_tid (thr x t)); [cbn; lia|].
+  pose proof (alloc_mono (tids x)). destruct (id_alloc (tids x)); cbn in *. lia.
+Qed.
+
+Lemma step_mono : forall x o, (nxt (tids x) <= nxt (tids (fst (step cf x o))))%nat.
+Proof.
+  intros x o. destruct o; cbn.
+  - destruct (t_alive (thr x t)); cbn; lia.
+  - destruct (t_alive (thr x t)); cbn; [|lia]. destruct (t_tid (thr x t)); cbn; lia.
+  - destruct (chnd x c); cbn; [lia|]. unfold new_inst. destruct (id_alloc (iids x)); cbn; lia.
+  - destruct (chnd x c); cbn; lia.
+  - destruct (chnd x c); destruct (chnd x d); cbn; lia.
+  - destruct (chnd x c); destruct (chnd x d); cbn; try lia. unfold new_inst. destruct (id_alloc (iids x)); cbn; lia.
+  - destruct (chnd x c); cbn; [|lia]. destruct (t_alive (thr x t)); cbn; [|lia].
+    pose proof (local_mono x t (i_sto i)). destruct (local cf x t (i_sto i)) as [x1 [s k]]; cbn in *. lia.
+  - destruct (chnd x c); cbn; lia.
+  - destruct (chnd x c); cbn; [|lia]. destruct (ck cf); cbn; lia.
+  - destruct (chnd x c); cbn; lia.
+  - destruct (chnd x c); cbn; lia.
+Qed.
+
+Lemma small_mono : forall x x', (nxt (tids x) <= nxt (tids x'))%nat -> small x' -> small x.
+Proof. unfold small. intros. lia. Qed.
+
+Lemma step_inv : forall x o, inv x -> small (fst (step cf x o)) -> inv (fst (step cf x o)).
+Proof.
+  intros x o I Hsm. pose proof (small_mono _ _ (step_mono x o) Hsm) as Hsx. clear Hsm.
+  destruct o; cbn.
+  - destruct (t_alive (thr x t)) eqn:E; cbn; [exact I|apply inv_spawn; assumption].
+  - destruct (t_alive (thr x t)) eqn:E; cbn; [apply inv_exit; assumption|exact I].
+  - destruct (chnd x c) eqn:E; cbn; [exact I|]. pose proof (inv_new x c I E) as H.
+    destruct (new_inst cf x c); exact H.
+  - destruct (chnd x c) eqn:E; cbn; [|exact I]. apply inv_del; assumption.
+  - destruct (chnd x c); destruct (chnd x d); cbn; try exact I. apply inv_swap; assumption.
+  - destruct (chnd x c) eqn:E; destruct (chnd x d); cbn; try exact I. pose proof (inv_new x c I E) as H.
+    destruct (new_inst cf x c); cbn in *. apply inv_swap; assumption.
+  - destruct (chnd x c) as [i|] eqn:E; cbn; [|exact I]. destruct (t_alive (thr x t)) eqn:Ea; cbn; [|exact I].
+    destruct (local cf x t (i_sto i)) as [x1 [s k]] eqn:El.
+    destruct (local_spec _ _ _ _ _ _ I Ea El) as (I1 & -> & _ & K1 & K2 & (M1 & M2 & M3 & M4 & _) & _).
+    cbn. rewrite <- M2 in E. apply (inv_write x1 c i k v I1 E K2 K1).
+  - destruct (chnd x c); cbn; exact I.
+  - destruct (chnd x c) as [i|] eqn:E; cbn; [|exact I]. destruct (ck cf) eqn:Ek; cbn; try exact I.
+    + apply inv_reset_adder; assumption.
+    + constructor; cbn; try (same I).
+    + constructor; cbn; try (same I).
+  - destruct (chnd x c); cbn; exact I.
+  - destruct (chnd x c); cbn; exact I.
+Qed.
+
+Lemma run_mono : forall h x, (nxt (tids x) <= nxt (tids (run cf x h)))%nat.
+Proof.
+  induction h as [|o h IH]; intros x; cbn; [lia|]. pose proof (step_mono x o). pose proof (IH (fst (step cf x o))). lia.
+Qed.
+
+Lemma run_inv : forall h x, inv x -> small (run cf x h) -> inv (run cf x h).
+Proof.
+  induction h as [|o h IH]; intros x I Hsm; cbn in *; [exact I|].
+  apply IH; [|exact Hsm]. apply step_inv; [exact I|]. eapply small_mono; [apply run_mono|exact Hsm].
+Qed.
+
+(* ---------------------------------------------------------------------------------------------- main theorems *)
+Lemma read_sum : forall x c i, inv x -> small x -> summing -> chnd x c = Some i ->
+  read cf x c i = (g_sum x c, if match ck cf with KSummer => true | _ => false end then g_cnt x c else 0%Z).
+Proof.
+  intros x c i I Hsm Hs Hc. unfold read, cells_of.
+  destruct (i_sum _ I Hs _ _ Hc) as [S1 S2].
+  assert (Hf : forall f, f (czero (ck cf)) = 0%Z ->
+            sumZ (map f (map (fun k => cmem x (i_sto i) k (i_off i)) (seq 0 (each_bound x (i_sto i))))) =
+            colsum f (cmem x) (i_sto i) (i_off i) (nxt (tids x))).
+  { intros f Hf. rewrite map_map, sumZ_map_seq, colsum_seq. rewrite each_bound_eq by assumption.
+    symmetry. apply colsum_tail; [lia|]. intros k Hk. rewrite (i_mem _ I); [exact Hf|]. lia. }
+  destruct Hs as [Hs|Hs]; rewrite Hs in *; cbn.
+  - rewrite Hf by reflexivity. rewrite S1. reflexivity.
+  - rewrite !Hf by reflexivity. rewrite S1, (S2 eq_refl). reflexivity.
 Qed.
 
 End Inv.
+
+(* ================================================================================================================ *)
+(* Statements used by Properties_C19.v                                                                               *)
+Definition cfg_ok (cf : cfg) : Prop := (1 <= cK cf)%nat /\ (1 <= cB cf)%nat.
+(* fewer thread ids ever handed out than the uint16 cast of snapshot.size() in for_each can hold *)
+Definition threads_small (cf : cfg) (x : st) : Prop := (Z.of_nat (nxt (tids x)) + Z.of_nat (cB cf) <= 2 ^ 16)%Z.
+Definition start (cf : cfg) : st := init_for (ck cf).
+Definition is_summer (k : kind) : bool := match k with KSummer => true | _ => false end.
+
+Lemma reach_inv : forall cf h, cfg_ok cf -> threads_small cf (run cf (start cf) h) -> inv cf (run cf (start cf) h).
+Proof. intros cf h [HK HB] Hs. apply run_inv; try assumption. apply inv_init; assumption. Qed.
+
+Theorem ct_sum_exact : forall cf h c i, cfg_ok cf -> ck cf = KAdder \/ ck cf = KSummer ->
+  let x := run cf (start cf) h in
+  threads_small cf x -> chnd x c = Some i ->
+  step cf x (CRead c) = (x, OVal (g_sum x c) (if is_summer (ck cf) then g_cnt x c else 0%Z)).
+Proof.
+  intros cf h c i Hok Hk x Hs Hc. cbn. rewrite Hc. destruct Hok as [HK HB].
+  rewrite (read_sum cf HK HB x c i (reach_inv cf h (conj HK HB) Hs) Hs Hk Hc). reflexivity.
+Qed.
+
+Theorem ct_fresh_is_zero : forall cf h c, cfg_ok cf -> ck cf = KAdder \/ ck cf = KSummer ->
+  let x := run cf (start cf) (h ++ [CNew c]) in
+  threads_small cf x -> chnd (run cf (start cf) h) c = None ->
+  exists i, chnd x c = Some i /\ step cf x (CRead c) = (x, OVal 0%Z 0%Z).
+Proof.
+  intros cf h c Hok Hk x Hs Hc.
+  assert (Hx : x = fst (step cf (run cf (start cf) h) (CNew c))).
+  { unfold x. clear. revert h. generalize (start cf). intros x0 h. revert x0.
+    induction h as [|o h IH]; intros x0; cbn; [reflexivity|apply IH]. }
+  assert (Hg : exists i, chnd x c = Some i /\ g_sum x c = 0%Z /\ g_cnt x c = 0%Z).
+  { rewrite Hx. cbn. rewrite Hc. unfold new_inst. destruct (id_alloc _) as [iid a]. cbn. unfold upd. rewrite Nat.eqb_refl.
+    eexists; repeat split. }
+  destruct Hg as (i & Hi & G1 & G2). exists i. split; [exact Hi|].
+  pose proof (ct_sum_exact cf (h ++ [CNew c]) c i Hok Hk Hs Hi) as H. cbv zeta in H. fold x in H.
+  rewrite H, G1, G2. destruct (is_summer (ck cf)); reflexivity.
+Qed.
+
+(* for_each visits every line local() ever returned for the storage *)
+Theorem ct_for_each_all_used : forall cf h s k, cfg_ok cf ->
+  let x := run cf (start cf) h in
+  threads_small cf x -> In k (g_used x s) -> (k < each_bound x s)%nat.
+Proof.
+  intros cf h s k [HK HB] x Hs Hu. subst x. pose proof (reach_inv cf h (conj HK HB) Hs) as I.
+  rewrite each_bound_eq with (cf := cf) by assumption. destruct (i_used _ _ I _ _ Hu). lia.
+Qed.
+
+(* local(): the line is this storage's, it is the caller's thread id, and two live threads never share one *)
+Theorem ct_local_private : forall cf h t u s x1 s1 k1 x2 s2 k2, cfg_ok cf ->
+  let x := run cf (start cf) h in
+  threads_small cf x2 -> t <> u -> t_alive (thr x t) = true -> t_alive (thr x u) = true ->
+  local cf x t s = (x1, (s1, k1)) -> local cf x1 u s = (x2, (s2, k2)) ->
+  s1 = s /\ s2 = s /\ k1 <> k2.
+Proof.
+  intros cf h t u s x1 s1 k1 x2 s2 k2 [HK HB] x Hs Htu Ht Hu L1 L2.
+  assert (M1 : (nxt (tids x) <= nxt (tids x1))%nat) by (pose proof (local_mono cf HK HB x t s) as M; rewrite L1 in M; exact M).
+  assert (M2 : (nxt (tids x1) <= nxt (tids x2))%nat) by (pose proof (local_mono cf HK HB x1 u s) as M; rewrite L2 in M; exact M).
+  assert (Hsx : threads_small cf x) by (unfold threads_small in *; lia).
+  pose proof (reach_inv cf h (conj HK HB) Hsx) as I.
+  destruct (local_spec cf HK HB _ _ _ _ _ _ I Ht L1) as (I1 & E1 & T1 & _ & _ & _ & _ & O1 & _ & _).
+  assert (Hu1 : t_alive (thr x1 u) = true) by (rewrite O1 by auto; exact Hu).
+  destruct (local_spec cf HK HB _ _ _ _ _ _ I1 Hu1 L2) as (I2 & E2 & T2 & _ & _ & _ & _ & O2 & _ & _).
+  repeat split; auto. intros ->. apply Htu. eapply (i_tid_inj _ _ I2); [|exact T2]. rewrite O2 by auto. exact T1.
+Qed.
+
+Lemma local_tid_stable : forall cf x u s t k, t_tid (thr x t) = Some k -> t_tid (thr (fst (local cf x u s)) t) = Some k.
+Proof.
+  intros cf x u s t k H. unfold local. destruct (local_fast_hit _ _); [exact H|].
+  destruct (t_tid (thr x u)) eqn:Eu.
+  - cbn. unfold upd. destruct (Nat.eqb_spec t u); [subst; cbn; congruence|exact H].
+  - destruct (id_alloc (tids x)). cbn. unfold upd. destruct (Nat.eqb_spec t u); [subst; congruence|exact H].
+Qed.
+
+Definition no_exit (t : nat) (o : op) : Prop := match o with Exit u => u <> t | _ => True end.
+
+Lemma step_tid_stable : forall cf x o t k, inv cf x -> no_exit t o -> t_tid (thr x t) = Some k ->
+  t_tid (thr (fst (step cf x o)) t) = Some k.
+Proof.
+  intros cf x o t k I Hne H. destruct (i_tid _ _ I _ _ H) as (_ & _ & Hal). destruct o; cbn in *.
+  - destruct (t_alive (thr x t0)) eqn:E; cbn; [exact H|]. unfold upd. destruct (Nat.eqb_spec t t0); [|exact H]. congruence.
+  - destruct (t_alive (thr x t0)) eqn:E; cbn; [|exact H].
+    destruct (t_tid (thr x t0)); cbn; unfold upd; (destruct (Nat.eqb_spec t t0); [congruence|exact H]).
+  - destruct (chnd x c); cbn; [exact H|]. unfold new_inst. destruct (id_alloc (iids x)); exact H.
+  - destruct (chnd x c); exact H.
+  - destruct (chnd x c); destruct (chnd x d); exact H.
+  - destruct (chnd x c); destruct (chnd x d); try exact H. unfold new_inst. destruct (id_alloc (iids x)); exact H.
+  - destruct (chnd x c); cbn; [|exact H]. destruct (t_alive (thr x t0)); cbn; [|exact H].
+    pose proof (local_tid_stable cf x t0 (i_sto i) t k H) as L.
+    destruct (local cf x t0 (i_sto i)) as [x1 [s1 k1]]; exact L.
+  - destruct (chnd x c); exact H.
+  - destruct (chnd x c); cbn; [|exact H]. destruct (ck cf); exact H.
+  - destruct (chnd x c); exact H.
+  - destruct (chnd x c); exact H.
+Qed.
+
+Lemma run_tid_stable : forall cf h2 x t k, (1 <= cK cf)%nat -> (1 <= cB cf)%nat -> inv cf x -> small cf (run cf x h2) ->
+  Forall (no_exit t) h2 -> t_tid (thr x t) = Some k -> t_tid (thr (run cf x h2) t) = Some k.
+Proof.
+  intros cf h2. induction h2 as [|o h2 IH]; intros x t k HK HB I Hs Hf H; cbn in *; [exact H|].
+  inversion Hf; subst. apply IH; auto.
+  - apply step_inv; auto. eapply (small_mono cf HK HB); [apply (run_mono cf HK HB)|exact Hs].
+  - apply step_tid_stable; auto.
+Qed.
+
+Lemma run_app : forall cf a b x, run cf x (a ++ b) = run cf (run cf x a) b.
+Proof. intros cf a. induction a as [|o a IH]; intros b x; cbn; [reflexivity|apply IH]. Qed.
+
+(* a thread keeps its line for as long as it lives: after any further history without its exit, local() still
+   returns the line of the storage indexed by the same id *)
+Theorem ct_local_stable : forall cf h h2 t s k x2 s2 k2, cfg_ok cf ->
+  let x := run cf (start cf) h in let x' := run cf x h2 in
+  threads_small cf x2 -> t_tid (thr x t) = Some k -> Forall (no_exit t) h2 ->
+  local cf x' t s = (x2, (s2, k2)) -> s2 = s /\ k2 = k.
+Proof.
+  intros cf h h2 t s k x2 s2 k2 [HK HB] x x' Hs Ht Hf L.
+  assert (M : (nxt (tids x') <= nxt (tids x2))%nat) by (pose proof (local_mono cf HK HB x' t s) as M; rewrite L in M; exact M).
+  assert (Hs' : threads_small cf x') by (unfold threads_small in *; lia).
+  assert (I' : inv cf x') by (unfold x', x; rewrite <- run_app; apply reach_inv; [split; auto|rewrite run_app; exact Hs']).
+  assert (Hsx : threads_small cf x) by (pose proof (run_mono cf HK HB h2 x); unfold threads_small in *; fold x' in H; lia).
+  pose proof (reach_inv cf h (conj HK HB) Hsx) as I.
+  pose proof (run_tid_stable cf h2 x t k HK HB I Hs' Hf Ht) as T. fold x' in T.
+  destruct (i_tid _ _ I' _ _ T) as (_ & _ & Hal).
+  destruct (local_spec cf HK HB _ _ _ _ _ _ I' Hal L) as (_ & E & _ & _ & _ & _ & _ & _ & _ & P).
+  split; [exact E|apply P, T].
+Qed.
+
+(* ------------------------------------------------------------------------------------------ for_each_alive *)
+(* the const overload never reads out of bounds *)
+Lemma alive_range_const : forall size r, alive_range true size r <> None.
+Proof.
+  intros size r. unfold alive_range. destruct (g_alive_c (Z.of_nat (fst r)) (Z.of_nat (snd r)) (Z.of_nat size)) as [-> ->].
+  destruct (Z.ltb_spec (Z.min (Z.of_nat (fst r)) (Z.of_nat size)) (Z.min (Z.of_nat (snd r)) (Z.of_nat size)));
+    destruct (Z.ltb_spec (Z.of_nat size) (Z.min (Z.of_nat (snd r)) (Z.of_nat size))); cbn; try discriminate. lia.
+Qed.
+
+Theorem ct_alive_const_in_bounds : forall x s, for_each_alive x true s <> None.
+Proof.
+  intros x s. unfold for_each_alive. induction (alive_runs (tids x)) as [|r q IH]; cbn; [discriminate|].
+  pose proof (alive_range_const (csize x s) r). destruct (alive_range true (csize x s) r); [|contradiction].
+  destruct (alive_lines true (csize x s) q); [discriminate|contradiction].
+Qed.
+
+
+(* --------------------------------------------------------------------------------------------- refutations *)
+(* the configurations of the real classes *)
+Definition cfg_compact16 : cfg := {| cK := num_per_line 1 8; cB := block_size; ck := KAdder |}.
+Definition cfg_adder : cfg := {| cK := num_per_line 64 8; cB := block_size; ck := KAdder |}.
+Definition cfg_summer : cfg := {| cK := num_per_line 64 16; cB := block_size; ck := KSummer |}.
+Definition cfg_maxer : cfg := {| cK := num_per_line 64 16; cB := block_size; ck := KMaxer |}.
+Definition cfg_miner : cfg := {| cK := num_per_line 64 16; cB := block_size; ck := KMiner |}.
+
+Lemma cfgs_ok : cfg_ok cfg_compact16 /\ cfg_ok cfg_adder /\ cfg_ok cfg_summer /\ cfg_ok cfg_maxer /\ cfg_ok cfg_miner.
+Proof. unfold cfg_ok. repeat split; apply Nat.leb_le; vm_compute; reflexivity. Qed.
+
+(* F6: 17 instances (the 17th lives in the second storage, which no thread has touched), one thread that used
+   the first: the non-const for_each_alive of the 17th walks [0, 1) of an empty block table *)
+Definition h_alive_oob : list op :=
+  Spawn 0 :: map CNew (seq 0 17) ++ [CAdd 0 0 5%Z].
+
+Theorem ct_alive_nonconst_refuted :
+  exists cf h c, cfg_ok cf /\ threads_small cf (run cf (start cf) h) /\ chnd (run cf (start cf) h) c <> None /\
+    snd (step cf (run cf (start cf) h) (CAlive c false)) = OList None.
+Proof.
+  exists cfg_compact16, h_alive_oob, 16. split; [apply cfgs_ok|]. split; [vm_compute; discriminate|].
+  split; vm_compute; [discriminate|reflexivity].
+Qed.
+
+(* a maxer whose only sample of the period is numeric_limits::min() reports "no sample" *)
+Theorem ct_extreme_refuted :
+  exists h c, let x := run cfg_maxer (start cfg_maxer) h in
+    g_per x c = [int64_min] /\ chnd x c <> None /\ step cfg_maxer x (CRead c) = (x, OVal 0%Z 0%Z).
+Proof.
+  exists [Spawn 0; CNew 0; CAdd 0 0 int64_min], 0. cbv zeta. split; [vm_compute; reflexivity|].
+  split; [vm_compute; discriminate|]. unfold step. 
+  set (x := run cfg_maxer (start cfg_maxer) [Spawn 0; CNew 0; CAdd 0 0 int64_min]).
+  assert (E : exists i, chnd x 0 = Some i /\ read cfg_maxer x 0 i = (0%Z, 0%Z)).
+  { eexists. split; [vm_compute; reflexivity|]. vm_compute. reflexivity. }
+  destruct E as (i & -> & ->). reflexivity.
+Qed.
+
+(* ------------------------------------------------------------------------------- concurrent reader bounds *)
+Definition SZ (l : list Z) : Z := fold_right Z.add 0%Z l.
+
+Lemma SZ_app : forall a b, SZ (a ++ b) = (SZ a + SZ b)%Z.
+Proof. unfold SZ. induction a as [|x a IH]; intros b; cbn; [reflexivity|rewrite IH; lia]. Qed.
+
+Lemma SZ_split : forall p l, (SZ (firstn p l) + SZ (skipn p l))%Z = SZ l.
+Proof. intros p l. rewrite <- SZ_app, firstn_skipn. reflexivity. Qed.
+
+Lemma firstn_S_sum : forall l p, (p < length l)%nat -> SZ (firstn (S p) l) = (SZ (firstn p l) + nth p l 0)%Z.
+Proof.
+  unfold SZ. induction l as [|x l IH]; intros p Hp; cbn in Hp; [lia|].
+  destruct p; [cbn; lia|]. rewrite !firstn_cons. cbn [nth fold_right].
+  specialize (IH p ltac:(lia)). lia.
+Qed.
+
+Lemma splice_length {A} : forall (l : list A) t v, (t < length l)%nat -> length (firstn t l ++ v :: skipn (S t) l) = length l.
+Proof.
+  intros l t v Ht. rewrite app_length. cbn [length]. rewrite firstn_length, skipn_length. lia.
+Qed.
+
+Lemma nth_upd_length : forall l t v, (t < length l)%nat -> length (nth_upd l t v) = length l.
+Proof.
+  intros l t v Ht. unfold nth_upd. rewrite app_length. cbn [length]. rewrite firstn_length, skipn_length. lia.
+Qed.
+
+Lemma nth_upd_firstn : forall l t v p, (t < length l)%nat ->
+  SZ (firstn p (nth_upd l t v)) = (SZ (firstn p l) + (if Nat.ltb t p then v - nth t l 0 else 0))%Z.
+Proof.
+  unfold SZ. induction l as [|x l IH]; intros t v p Ht; cbn in Ht; [lia|].
+  destruct t.
+  - unfold nth_upd. cbn [firstn skipn app nth]. destruct p; cbn [firstn fold_right Nat.ltb Nat.leb]; lia.
+  - unfold nth_upd in *. rewrite firstn_cons. change (skipn (S (S t)) (x :: l)) with (skipn (S t) l).
+    cbn [app]. destruct p; [cbn; lia|].
+    rewrite !firstn_cons. cbn [fold_right nth]. specialize (IH t v p ltac:(lia)). rewrite IH.
+    change (S t <? S p) with (t <? p). lia.
+Qed.
+
+Lemma nth_upd_total : forall l t v, (t < length l)%nat -> SZ (nth_upd l t v) = (SZ l + v - nth t l 0)%Z.
+Proof.
+  intros l t v Ht. pose proof (nth_upd_firstn l t v (length l) Ht) as H.
+  rewrite <- (nth_upd_length l t v Ht) in H at 1. rewrite !firstn_all in H.
+  destruct (Nat.ltb_spec t (length l)); lia.
+Qed.
+
+Definition nonneg (prog : list (list Z)) : Prop := forall l, In l prog -> forall v, In v l -> (0 <= v)%Z.
+
+Record rinv (x : rst) : Prop := {
+  ri_len : length (r_prog x) = length (r_slots x);
+  ri_nn : nonneg (r_prog x);
+  ri_pos : (r_pos x <= length (r_slots x))%nat;
+  ri_idle : r_started x = false -> r_pos x = 0%nat /\ r_acc x = 0%Z;
+  ri_lo : r_started x = true -> (r_lo x <= r_acc x + SZ (skipn (r_pos x) (r_slots x)))%Z;
+  ri_hi : (r_acc x <= SZ (firstn (r_pos x) (r_slots x)))%Z
+}.
+
+Lemma rinv_init : forall slots prog, length prog = length slots -> nonneg prog -> rinv (rinit slots prog).
+Proof.
+  intros slots prog Hl Hn. constructor; cbn; auto; try lia; try discriminate.
+Qed.
+
+Lemma in_firstn {A} : forall n (l : list A) a, In a (firstn n l) -> In a l.
+Proof. intros n l a H. rewrite <- (firstn_skipn n l). apply in_or_app. left; exact H. Qed.
+Lemma in_skipn {A} : forall n (l : list A) a, In a (skipn n l) -> In a l.
+Proof. intros n l a H. rewrite <- (firstn_skipn n l). apply in_or_app. right; exact H. Qed.
+
+Lemma nonneg_upd : forall prog t v rest, nonneg prog -> nth t prog [] = v :: rest -> (t < length prog)%nat ->
+  nonneg (firstn t prog ++ rest :: skipn (S t) prog) /\ (0 <= v)%Z.
+Proof.
+  intros prog t v rest Hn E Ht.
+  assert (Hin : In (v :: rest) prog) by (rewrite <- E; apply nth_In; exact Ht).
+  split.
+  - intros l Hl w Hw. apply in_app_or in Hl. destruct Hl as [Hl|[<-|Hl]].
+    + eapply Hn; [eapply in_firstn, Hl|exact Hw]. 
+    + eapply Hn; [exact Hin|right; exact Hw].
+    + eapply Hn; [eapply in_skipn, Hl|exact Hw].
+  - eapply Hn; [exact Hin|left; reflexivity].
+Qed.
+
+Lemma rstep_inv : forall x t x', rinv x -> rstep x t = Some x' -> rinv x'.
+Proof.
+  intros x t x' I. unfold rstep.
+  destruct (Nat.ltb_spec t (length (r_slots x))) as [Ht|Ht].
+  - destruct (nth t (r_prog x) []) as [|v rest] eqn:E; [discriminate|]. intros H; injection H as <-.
+    assert (Htp : (t < length (r_prog x))%nat) by (rewrite (ri_len _ I); exact Ht).
+    destruct (nonneg_upd _ _ _ _ (ri_nn _ I) E Htp) as [Hn Hv].
+    unfold adder_step.
+    constructor; cbn [r_slots r_prog r_pos r_acc r_lo r_started].
+    + rewrite nth_upd_length by exact Ht.
+      change (length (firstn t (r_prog x) ++ rest :: skipn (S t) (r_prog x)) = length (r_slots x)).
+      rewrite splice_length by exact Htp. exact (ri_len _ I).
+    + exact Hn.
+    + rewrite nth_upd_length by exact Ht. exact (ri_pos _ I).
+    + exact (ri_idle _ I).
+    + intros Hs. pose proof (ri_lo _ I Hs) as L.
+      pose proof (SZ_split (r_pos x) (nth_upd (r_slots x) t (nth t (r_slots x) 0%Z + v)%Z)) as S1.
+      pose proof (SZ_split (r_pos x) (r_slots x)) as S2.
+      rewrite nth_upd_total in S1 by exact Ht. rewrite nth_upd_firstn in S1 by exact Ht.
+      destruct (Nat.ltb_spec t (r_pos x)); lia.
+    + pose proof (ri_hi _ I) as L. rewrite nth_upd_firstn by exact Ht. destruct (Nat.ltb_spec t (r_pos x)); lia.
+  - destruct (Nat.eqb_spec t (length (r_slots x))) as [->|_]; [|discriminate].
+    destruct (Nat.ltb_spec (r_pos x) (length (r_slots x))) as [Hp|Hp]; [|discriminate].
+    intros H; injection H as <-.
+    pose proof (firstn_S_sum (r_slots x) (r_pos x) Hp) as F.
+    pose proof (SZ_split (r_pos x) (r_slots x)) as S1. pose proof (SZ_split (S (r_pos x)) (r_slots x)) as S2.
+    constructor; cbn [r_slots r_prog r_pos r_acc r_lo r_started].
+    + exact (ri_len _ I).
+    + exact (ri_nn _ I).
+    + lia.
+    + discriminate.
+    + intros _. destruct (r_started x) eqn:Es.
+      * pose proof (ri_lo _ I Es). lia.
+      * destruct (ri_idle _ I Es) as [P A]. rewrite P, A in *. cbn in *. fold (SZ (r_slots x)). lia.
+    + pose proof (ri_hi _ I). lia.
+Qed.
+
+(* all interleavings of n single-writer adders (non-negative increments) with one reader walking the slots:
+   whenever the reader has loaded every slot, its sum lies between the total at the moment it started
+   (contributions completed before the read) and the total now (contributions started before it ended) *)
+Theorem ct_reader_bounds : forall slots prog x, length prog = length slots -> nonneg prog ->
+  reachable rst rstep (rinit slots prog) x -> r_started x = true -> r_pos x = length (r_slots x) ->
+  (r_lo x <= r_acc x <= SZ (r_slots x))%Z.
+Proof.
+  intros slots prog x Hl Hn Hr Hs Hp.
+  assert (I : rinv x).
+  { eapply (inv_reachable rst rstep rinv); [apply rinv_init; eassumption| |exact Hr].
+    intros s t s' Is E. eapply rstep_inv; eauto. }
+  pose proof (ri_lo _ I Hs) as L. pose proof (ri_hi _ I) as H. rewrite Hp in *.
+  rewrite skipn_all in L. rewrite firstn_all in H. cbn in L. lia.
+Qed.
